@@ -179,6 +179,12 @@ func build(sp Spec, o *obs) func() {
 					case "stop-err":
 						s.Stop()
 						s.AppendError(errTask)
+					case "nil-err":
+						// a variadic report whose first value is nil (AppendError(stepA(), stepB()) with only the
+						// second step failing): the failure still counts
+						s.AppendError(nil, errTask)
+					case "nils":
+						s.AppendError(nil, nil) // nothing failed: no error, the scope commits
 					case "yield":
 						vsched.Point("task-yield")
 					case "latechild":
@@ -525,7 +531,7 @@ func renderLog(l []logEntry) string {
 
 // isErrBody: the task body leaves an error in its scope's context.
 func isErrBody(b string) bool {
-	return b == "err" || b == "kill" || b == "stop-kill" || b == "stop-err"
+	return b == "err" || b == "kill" || b == "stop-kill" || b == "stop-err" || b == "nil-err"
 }
 
 func programs(thorough bool) []Spec {
@@ -535,7 +541,7 @@ func programs(thorough bool) []Spec {
 	}
 	var ps []Spec
 	trees := [][]string{{"R"}, {"R", "C"}, {"R", "I"}, {"R", "C", "G"}, {"R", "C", "I"}}
-	bodies := []string{"none", "err", "kill", "stop", "yield"}
+	bodies := []string{"none", "err", "kill", "stop", "yield", "nil-err", "nils"}
 	for _, t := range trees {
 		last := t[len(t)-1]
 		b := b
